@@ -17,6 +17,8 @@ def random_spec(seed):
         classes = sorted(set(spec['y']), key=str)
         mp = {c: relabel[i] for i, c in enumerate(classes)}
         spec['y'] = [mp[c] for c in spec['y']]
+        if spec.get('dev'):
+            spec['dev']['y'] = [mp[c] for c in spec['dev']['y']]
     p = spec['params']
     p['min_freq_mod'] = rng.choice([None, [1, 10], [1, 5], [1, 4], [3, 10]])
     p['copy'] = True
